@@ -19,7 +19,7 @@ use chipper_common::*;
 use tbx_harness::*;
 
 fn spec(rng: &mut Rng, w: usize, h: usize, node_keep: u64, edge_keep: u64) -> GridSpec {
-    GridSpec { w, h, node_keep, edge_keep, diag: 0, chord: 0, base: *rng.pick(&BASES), swap: rng.chance(1, 2), order: rng.below(3) as u8 }
+    GridSpec { w, h, node_keep, edge_keep, diag: 0, chord: 0, base: *rng.pick(&BASES), swap: rng.chance(1, 2), rot: rng.chance(1, 4), order: rng.below(3) as u8 }
 }
 
 fn generate(rng: &mut Rng, tier: Tier, cases: &mut Vec<Case>) {
